@@ -182,17 +182,22 @@ def real_parse(text, lib=None):
         return "crash " + type(e).__name__, None
     if not isinstance(a, declast.Declaration):
         return "unmodelled " + type(a).__name__, a
+    return ast_line(a), a
+
+
+def ast_line(a):
+    """a declast.Declaration in the format of drv_decl's `parse` / `rewrite`"""
+    declast, todict = mods()
     try:
         d = todict.to_dict(a)
     except Exception as e:  # noqa
-        return "crash todict:" + type(e).__name__, a
+        return "crash todict:" + type(e).__name__
     try:
         sd = ser_decl(d)
     except Exception as e:  # noqa  (e.g. a name that is None: the parser built a malformed node)
-        return "crash structure:" + type(e).__name__, a
-    line = "ok %s %s %s %s %s %s" % (sd, _txt(a.gen_decl), _txt(a.gen_arg_as_cxx), _txt(a.gen_arg_as_c),
+        return "crash structure:" + type(e).__name__
+    return "ok %s %s %s %s %s %s" % (sd, _txt(a.gen_decl), _txt(a.gen_arg_as_cxx), _txt(a.gen_arg_as_c),
                                     _txt(a.as_cast), _txt(lambda: str(a)))
-    return line, a
 
 
 def grammar_coverage(asts):
